@@ -487,7 +487,24 @@ Definition stack_ctor (cs : list cview) (pos : nat) (n : name) : outcome cview :
       else Ok (CStack cs pos n)
   end.
 
-Definition chain_ctor (cs : list cview) (n : name) : outcome cview :=
+(* validate_shapes_similar NOW (after fix f29e87d of finding F16, found by C16's machine-arithmetic
+   proof): total_length = first_shape[along].1; for every later shape FIRST
+   total_length = total_length.checked_add(shape[along].1) or panic, THEN its similarity test *)
+Fixpoint similar_loop (along : nat) (s0 : shape) (total : N) (rest : list shape) : bool :=
+  match rest with
+  | [] => true
+  | s :: r =>
+      match checked_add total (len_at s along) with
+      | None => false
+      | Some t => similar_from 0 along s s0 && similar_loop along s0 t r
+      end
+  end.
+Definition shapes_similar_checked (shs : list shape) (along : nat) : bool :=
+  match shs with [] => true | s0 :: rest => similar_loop along s0 (len_at s0 along) rest end.
+
+(* checked = false: the constructor BEFORE f29e87d (no test of the total length), kept for the
+   refutation witness C16_chain_length_sum_overflows *)
+Definition chain_ctor_gen (checked : bool) (cs : list cview) (n : name) : outcome cview :=
   match cs with
   | [] => Panic
   | c0 :: _ =>
@@ -498,11 +515,14 @@ Definition chain_ctor (cs : list cview) (n : name) : outcome cview :=
           match position_of sh n with
           | None => Panic
           | Some along =>
-              if negb (shapes_similar (map c_shape cs) along) then Panic
+              if negb (if checked then shapes_similar_checked (map c_shape cs) along
+                       else shapes_similar (map c_shape cs) along) then Panic
               else Ok (CChain cs along)
           end
       end
   end.
+Definition chain_ctor : list cview -> name -> outcome cview := chain_ctor_gen true.
+Definition chain_ctor_legacy : list cview -> name -> outcome cview := chain_ctor_gen false.
 
 Fixpoint v_ctor (v : view) : outcome cview :=
   match v with
